@@ -1,7 +1,7 @@
 """Regenerate coq/gen/*.v from /repo's current sources.  Files are rewritten only when their
 content changes so that make stays incremental."""
 import os, sys, json
-from . import dispatch, tables, inventory, leaf
+from . import dispatch, tables, inventory, leaf, effects
 
 VERIF = os.path.dirname(os.path.dirname(os.path.abspath(__file__)))
 GEN = os.path.join(VERIF, "coq", "gen")
@@ -44,6 +44,11 @@ def regenerate(cfg, sizes):
     report["unsupported"] += ["translator_unsupported:" + n for n in notes]
     write_if_changed(os.path.join(GEN, "Gen_leaf.v"), leaf.emit(fns))
     report["leaf_functions"] = sum(1 for _, t in fns if t is not None)
+    # container plans (decision and arithmetic core of the struct-manipulating functions)
+    efns, notes, enums = effects.translate_all(cfg, sizes)
+    report["unsupported"] += ["translator_unsupported:" + n for n in notes]
+    write_if_changed(os.path.join(GEN, "Gen_effects.v"), effects.emit(efns, enums, cfg.get("conf")))
+    report["effect_plans"] = sum(1 for _, t in efns if t is not None)
     # inventories
     inv, notes = inventory.scan(cfg)
     report["unsupported"] += ["translator_unsupported:" + n for n in notes]
